@@ -89,6 +89,7 @@ type MapSpec struct {
 	Alpha     float64 // when FromAlpha
 	Gamma     float64 // otherwise
 	Offset    float64
+	Nominal   float64 // the accuracy the mapping was configured for (0 if built from an arbitrary gamma)
 }
 
 func (s MapSpec) String() string {
@@ -161,7 +162,8 @@ func Alpha(lo, hi float64) *rapid.Generator[float64] {
 // MappingFromAlpha draws a mapping built by New*Mapping(alpha).
 func MappingFromAlpha(lo, hi float64) *rapid.Generator[MapSpec] {
 	return rapid.Custom(func(t *rapid.T) MapSpec {
-		return MapSpec{Kind: rapid.SampledFrom(MapKinds).Draw(t, "mkind"), FromAlpha: true, Alpha: Alpha(lo, hi).Draw(t, "alpha")}
+		a := Alpha(lo, hi).Draw(t, "alpha")
+		return MapSpec{Kind: rapid.SampledFrom(MapKinds).Draw(t, "mkind"), FromAlpha: true, Alpha: a, Nominal: a}
 	})
 }
 
@@ -199,7 +201,7 @@ func SketchMapping(lo, hi float64) *rapid.Generator[MapSpec] {
 		}
 		g, o := GammaOf(m)
 		off := rapid.SampledFrom([]float64{0, o, 0.5, -0.5, 1, -1, 7.25, -1000.75, 1e6, -1e6}).Draw(t, "offset")
-		return MapSpec{Kind: s.Kind, Gamma: g, Offset: off}
+		return MapSpec{Kind: s.Kind, Gamma: g, Offset: off, Nominal: s.Alpha}
 	})
 }
 
